@@ -673,6 +673,9 @@ void SetExpression::SetOverrideFrozen()
 
 ExpressionResult SetConstExpression::DoEvaluate(ScriptFrame& frame, DebugHint *dhint) const
 {
+	if (frame.Sandboxed)
+		BOOST_THROW_EXCEPTION(ScriptError("Constants are not allowed in sandbox mode.", m_DebugInfo));
+
 	auto globals = ScriptGlobal::GetGlobals();
 
 	ExpressionResult operandres = m_Operand->Evaluate(frame);
